@@ -65,6 +65,16 @@ def parseDecRuns (ts : List String) : List (Nat × String) :=
     | n :: rest => some (natD n, "*".intercalate rest)
     | _ => none
 
+def parseTraRuns (ts : List String) : List (Nat × Option (Nat × Int)) :=
+  ts.filterMap fun t =>
+    match t.splitOn "*" with
+    | [n, "-"] => some (natD n, none)
+    | [n, fl] =>
+      match fl.splitOn ":" with
+      | [f, l] => some (natD n, some (natD f, intD l))
+      | _ => none
+    | _ => none
+
 def parseTraceEnt (s : String) : Option TraceEnt :=
   match s.splitOn "@" with
   | [fn, p, o, f, l] => some ⟨fn, p, o, f, intD l⟩
@@ -102,6 +112,7 @@ def parseObs (line : String) : Obs :=
   | "ev" :: p :: ts => .ev p (ts.filterMap parseCEv)
   | "tab" :: p :: _ => .tab p line
   | "dec" :: p :: ts => .dec p (parseDecRuns ts)
+  | "tra" :: p :: ts => .tra p (parseTraRuns ts)
   | ["r", "load", _, "!fail"] => .loadFail
   | "crash" :: _ => .crash line
   | "sanitizer" :: _ => .crash line
@@ -135,6 +146,25 @@ def renderDecLine (prog : String) (t : Tab) : String :=
   let texts := (List.range (t.psize + 1)).map fun (off : Nat) => renderDec t (findLine t (off : Int))
   let body := " ".intercalate ((rle texts).map fun p => s!"{p.1}*{p.2}")
   s!"dec {prog} {body}"
+
+/-- the MODEL `translate_absolute_line` for every absolute line 0 … total+2 of a dumped table, compressed like the
+    harness does -/
+def traCompress (xs : List (Option (Nat × Int))) : List (Nat × Option (Nat × Int)) :=
+  (xs.foldl (fun (acc : List (Nat × Option (Nat × Int))) x =>
+    match acc, x with
+    | (n, none) :: rest, none => (n + 1, none) :: rest
+    | (n, some (f, l)) :: rest, some (f', l') =>
+      if f' = f ∧ l' = l + (n : Int) then (n + 1, some (f, l)) :: rest else (1, x) :: acc
+    | _, _ => (1, x) :: acc) []).reverse
+
+def renderTraLine (prog : String) (t : Tab) : String :=
+  let total := (t.fi.map (·.count)).sum
+  let xs := (List.range (total + 3)).map fun (a : Nat) => translateAbs (a : Int) t.fi
+  let body := " ".intercalate ((traCompress xs).map fun p =>
+    match p.2 with
+    | none => s!"{p.1}*-"
+    | some (f, l) => s!"{p.1}*{f}:{l}")
+  s!"tra {prog} {body}"
 
 def renderOb (o : String) : String := if o == "-" then "0" else "/" ++ o
 def renderProg (p : String) : String := if p == "-" then "0" else p
@@ -182,6 +212,10 @@ def modelLine (st : MState) (line : String) : MState :=
     match st.evs.find? (fun e => e.1 == p) with
     | some e => { st with out := renderTab p (encRun e.2) :: st.out }     -- MODEL encoder on the events
     | none => { st with out := line :: st.out }                           -- compiled before the hook / from a binary
+  | "tra" :: p :: _ =>
+    match st.world.tab? p with
+    | some t => { st with out := renderTraLine p t :: st.out }           -- MODEL translate_absolute_line, every line
+    | none => { st with out := s!"tra {p} !notab" :: st.out }
   | "dec" :: p :: _ =>
     match st.world.tab? p with
     | some t => { st with out := renderDecLine p t :: st.out }           -- MODEL decoder on the real tables
@@ -210,7 +244,12 @@ def runJudge (body : List String) : List String :=
     | _ => none
   let has (w : String) := input.any fun l => l.startsWith w
   -- a case without its set-up lines is not an observation about C18 (keeps the shrinker honest)
-  if (has "load " && !has "file ") ||
+  let napply := (input.filter fun l => l.startsWith "apply ").length
+  let nload := (exps.filter fun e => e.phase == "load").length
+  -- every source file the records name must be written by the case itself
+  let named := exps.flatMap fun e => [e.file, e.program] ++ e.trace.flatMap fun t => [t.file, t.prog]
+  let missing := named.any fun n => n != "" && !(has ("file /" ++ n ++ " "))
+  if missing || (has "load " && !has "file ") || (!exps.isEmpty && exps.length ≠ napply + nload) ||
      (!exps.isEmpty && !(has "load " && has "file " && (has "apply " || exps.any fun e => e.phase == "load"))) then
     ["bad setup incomplete-case"] else
   match judgeEv exps (impl.map parseObs) with
